@@ -15,6 +15,12 @@ Plain ==
         h \in {I(c, "pholder", x, y) : x \in {<<>>, <<a>>, <<a, b>>, <<b, a>>, <<a, a>>}, y \in Opt({a, b})}
               \cup {I(c, "cx", x, y) : x \in Opt({a, b}), y \in Opt({a})},
         fwd \in (IF Deep THEN BOOLEAN ELSE {FALSE}) } : ids \in IdSets}
+(* reference cycles whose members make a second reference after the edge that closes the cycle (to an instance  *)
+(* outside the cycle, to another member, to themselves), and a referrer of the cycle from outside                *)
+Cyc ==
+  { <<I(1, "pnode", <<2>>, x1), I(2, "pnode", <<3>>, x2), I(3, "pnode", <<1>>, x3), I(4, "pnode", <<>>, <<>>), I(5, "pholder", <<3>>, y)>> :
+      x1 \in Opt({4, 3}), x2 \in Opt({4}), x3 \in Opt({4, 3}), y \in Opt({1}) }
+  \cup { <<I(5, "pholder", <<2, 4>>, <<>>), I(4, "pnode", x, <<>>), I(2, "pnode", <<1>>, <<4>>), I(1, "pnode", <<2>>, <<>>)>> : x \in Opt({4, 1}) }
 SetValued ==
   { <<I(1, t1, <<>>, <<>>), I(2, "inode", <<>>, <<>>), I(3, h1, x1, y1), I(4, "iholder", x2, y2)>> :
       t1 \in {"inode", "isubnode", "isubsub"}, h1 \in {"iholder", "isub"},
@@ -26,7 +32,7 @@ Single ==
 Two ==
   { <<I(1, "itwo", <<>>, <<>>), I(2, "itwo", <<>>, <<>>), I(3, "ipair", <<t>>, y), I(4, "ipair", <<u>>, z)>> :
       t \in {1, 2}, u \in {1, 2}, y \in Opt({1, 2}), z \in Opt({1}) }
-Pops == IF Family = "plain" THEN Plain ELSE SetValued \cup Single \cup Two
+Pops == IF Family = "plain" THEN Plain \cup Cyc ELSE SetValued \cup Single \cup Two
 (* every population in one spelling picked by a hash of its shape; a probe subset (and, when Deep, every        *)
 (* population) in every layout; string forms rotate with the layout                                            *)
 RECURSIVE Weight(_, _)
